@@ -29,6 +29,7 @@ import (
 	"sort"
 	"strings"
 	"sync"
+	"sync/atomic"
 	"time"
 
 	"github.com/tetratelabs/wazero"
@@ -325,8 +326,14 @@ type job struct {
 	// DeadlineExceeded, which is what the documented exit codes are defined by.
 	AppCause bool `json:"app_cause,omitempty"`
 	Blocked  bool `json:"blocked,omitempty"` // the guest blocks in memory.atomic.wait32 instead of cycling
+	// InnerCtx: the call the embedder makes gets a context that is never done; the context that is cancelled / times out
+	// is one a HOST CALLBACK creates for the call it makes back into the guest (every call, at any nesting depth,
+	// is "an in-flight call with its context").  Inconclusive when no such inner call is in flight once the cause fired.
+	InnerCtx bool `json:"inner_ctx,omitempty"`
 	Mods    []string `json:"mods,omitempty"`
 }
+
+type innerKey struct{}
 
 type result struct {
 	Returned    bool    `json:"returned"`
@@ -337,6 +344,8 @@ type result struct {
 	AfterFireMs float64 `json:"after_fire_ms"`
 	Fired       bool    `json:"fired"`
 	Setup       string  `json:"setup_error,omitempty"`
+	// Inconclusive (InnerCtx jobs): the program's cycle lies outside the host callbacks; the outer call was stopped by the harness
+	Inconclusive bool `json:"inconclusive,omitempty"`
 }
 
 func runChild(path string) {
@@ -404,6 +413,12 @@ func runChild(path string) {
 			<-done
 		})
 	}
+	var (
+		innerOnce   sync.Once
+		innerCtx    context.Context
+		innerFlight atomic.Int32
+		outerCancel context.CancelFunc
+	)
 	hb := rt.NewHostModuleBuilder("env")
 	for k := range j.HostCB {
 		k := k
@@ -412,7 +427,33 @@ func runChild(path string) {
 				fire()
 			}
 			if cb := j.HostCB[k]; cb >= 0 {
-				if _, err := m.ExportedFunction(fmt.Sprintf("f%d", cb)).Call(ctx, uint64(arg)); err != nil {
+				if j.InnerCtx && ctx.Value(innerKey{}) == nil {
+					innerOnce.Do(func() {
+						d := time.Duration(j.DelayUs) * time.Microsecond
+						base := context.WithValue(ctx, innerKey{}, 1)
+						if j.Cause == "deadline" {
+							innerCtx, cancel = context.WithDeadline(base, time.Now().Add(d))
+							go func() { <-innerCtx.Done(); markFired() }()
+						} else {
+							innerCtx, cancel = context.WithCancel(base)
+							time.AfterFunc(d, fire)
+						}
+						// the cycle may lie outside the callbacks: then nothing is in flight under the inner context
+						// once it is done, the outer call (whose context is not done) rightly keeps running, and the
+						// harness ends it
+						time.AfterFunc(d+300*time.Millisecond, func() {
+							if innerFlight.Load() == 0 {
+								res.Inconclusive = true
+								outerCancel()
+							}
+						})
+					})
+					ctx = innerCtx
+				}
+				innerFlight.Add(1)
+				_, err := m.ExportedFunction(fmt.Sprintf("f%d", cb)).Call(ctx, uint64(arg))
+				innerFlight.Add(-1)
+				if err != nil {
 					panic(err)
 				}
 			}
@@ -461,7 +502,12 @@ func runChild(path string) {
 			callCtx, cancel = context.WithDeadline(bg, time.Now().Add(d))
 		}
 	}
-	defer cancel()
+	if j.InnerCtx {
+		cancel() // (the context prepared above is not used)
+		callCtx, outerCancel = context.WithCancel(bg)
+		cancel = outerCancel // until a callback replaces it
+	}
+	defer func() { cancel() }()
 	switch j.Timing {
 	case "before":
 		fire()
@@ -588,7 +634,10 @@ func judge(o outcome, p *c07.Prog, pred prediction, fixedTree bool) {
 		rep.Count("outcome:never-returns")
 		sig := fmt.Sprintf("C07:%s-never-returns-although-every-cycle-has-a-check", j.Engine)
 		what := "the call did not return %d ms after the cause fired although the model finds no check-free cycle"
-		if j.Blocked {
+		if j.InnerCtx {
+			sig = fmt.Sprintf("C07:%s-call-made-by-a-host-callback-never-returns-after-its-own-context-is-done", j.Engine)
+			what = "the call a host callback made back into the guest with a context of its own did not return %d ms after that context was done (the embedder's outer call has a context that is never done)"
+		} else if j.Blocked {
 			sig = fmt.Sprintf("F49:%s-blocked-in-atomic-wait-never-stops", j.Engine)
 			what = "the call did not return %d ms after the cause fired: the guest is blocked in memory.atomic.wait32 (MemoryInstance.wait selects on the notify channel and the guest's own timeout only - not on the call's context nor on the module's close)"
 		} else if pred.asIsCycle && !pred.fixedCycle && !fixedTree && !entryCaught {
@@ -612,6 +661,10 @@ func judge(o outcome, p *c07.Prog, pred prediction, fixedTree bool) {
 		if !strings.Contains(r.Err, "stack overflow") {
 			rep.Violate(hx.Violation{Kind: "correspondence", Signature: "C07:unbounded-recursion-ends-differently", What: "unbounded recursion returned something other than stack overflow or the exit error: " + r.Err, Input: j})
 		}
+		return
+	}
+	if r.Inconclusive {
+		rep.Count("outcome:inner-context-inconclusive(cycle-outside-the-callbacks)")
 		return
 	}
 	// exact only when the cause fires after the run has entered the cycle (checks on the way there still stop it)
@@ -866,6 +919,14 @@ func main() {
 					seenHang[p.Name+eng]++
 				}
 				plan = append(plan, planned{j, p, pred, false})
+				if p.HasHostCallback() && !hangs && s == 0 {
+					ji := j
+					ji.InnerCtx, ji.Timing, ji.AppCause = true, "inner", false
+					ji.Cause = []string{"cancel", "deadline"}[r.Intn(2)]
+					ji.Code = 0
+					ji.DelayUs = 2000 + r.Intn(30000)
+					plan = append(plan, planned{ji, p, pred, false})
+				}
 			}
 		}
 	}
